@@ -1083,8 +1083,13 @@ def script_item_st():
     stuck = st.fixed_dictionaries({'k': st.just('list'), 'w': st.sampled_from([2, 16]), 'u': st.integers(0, 7),
                                    'entries': st.lists(st.tuples(st.one_of(back, sym_st()), back, sym_st()).map(list), min_size=1, max_size=3),
                                    'short': st.none(), 'dup': st.just(False)})
+    # an entry that reaches the end of the handle space, followed by entries that point back
+    top = st.tuples(st.tuples(st.just('s'), st.integers(0, 3)).map(list), st.just(['a', 0xFFFF]), sym_st()).map(list)
+    past_end = st.fixed_dictionaries({'k': st.just('list'), 'w': st.sampled_from([2, 16]), 'u': st.integers(0, 7),
+                                      'entries': st.tuples(top, st.lists(st.tuples(back, back, sym_st()).map(list), min_size=1, max_size=2)).map(lambda t: [t[0]] + t[1]),
+                                      'short': st.none(), 'dup': st.just(False)})
     return st.one_of(
-        lst, lst, lst, stuck, stuck,
+        lst, lst, lst, stuck, stuck, past_end,
         st.fixed_dictionaries({'k': st.just('empty'), 'w': st.sampled_from([2, 16])}),
         st.fixed_dictionaries({'k': st.just('empty'), 'w': st.sampled_from([2, 16])}),
         st.fixed_dictionaries({'k': st.just('err'), 'code': st.one_of(st.sampled_from([0x0A, 0x01, 0x08, 0x0E, 0x80, 0xFF, 0x00]), st.integers(0, 255)),
@@ -1329,13 +1334,13 @@ def run_script_case(ctx, case) -> None:
 # ---------------------------------------------------------------------------
 def run(ctx) -> None:
     vloop.selftest()
-    ctx.hyp('db', lambda c: run_db_case(ctx, c), db_case(), max_examples=ctx.n(220, 32000))
-    ctx.hyp('script', lambda c: run_script_case(ctx, c), script_case(), max_examples=ctx.n(1200, 240000))
+    ctx.hyp('db', lambda c: run_db_case(ctx, c), db_case(), max_examples=ctx.n(220, 6400))
+    ctx.hyp('script', lambda c: run_script_case(ctx, c), script_case(), max_examples=ctx.n(1200, 32000))
     for label, n in (
         ('clients:2', 5), ('clients:3', 3), ('eatt_bearer', 5), ('included_service', 10), ('secondary_service', 10),
         ('include_registered_through_includer', 5), ('long_read', 10), ('value_len:0', 5), ('value_len:512', 3),
-        ('script:empty', 10), ('script:non_advancing', 10), ('script:err_unexpected', 10), ('script:wrong', 10),
-        ('script:repeat', 10), ('script:tail_repeat', 10), ('two_subscribed_bearers', 5), ('send_with_subscriber', 10),
+        ('script:empty', 10), ('script:non_advancing', 10), ('script:err_unexpected', 8), ('script:wrong', 5),
+        ('script:repeat', 5), ('script:tail_repeat', 10), ('two_subscribed_bearers', 5), ('send_with_subscriber', 10),
         ('send_truncated', 5), ('mixed_uuid_widths:services', 10), ('mixed_uuid_widths:characteristics', 10),
         ('mixed_uuid_widths:descriptors', 10), ('multi_pdu:services', 10), ('multi_pdu:characteristics', 10),
         ('multi_pdu:descriptors', 10), ('write:request', 3), ('write:command', 3), ('subscribe:notify', 10),
